@@ -4,8 +4,13 @@
    r = any([elt for t in it])  ~~>  acc = False; for t in it: b = elt; acc = acc or b;  r = acc
    (all: seed True, combine with and).  The seed and the loop are hoisted in
    front of the statement whose expression contains the reduction, whenever the
-   visitor reaches the reduction with a statement slot (`hoist = true`): not
-   inside a comprehension, not inside the branches of an if-expression. *)
+   visitor reaches the reduction with a statement slot: not inside a
+   comprehension, not inside the branches of an if-expression.
+
+   `fx = false`: the transform AS CODED.  `fx = true`: with the proposed repair
+   fixes/C08-fuse-hoisting.diff -- a `while` condition has no statement slot; a
+   later operand of and/or only hoists a reduction that cannot fail; a target
+   that names a statement-level variable is renamed. *)
 From Coq Require Import ZArith List Bool String.
 From FpyV Require Import Num.RealFloat Num.Float Num.CtxDef Lang.Syntax Lang.Values Lang.Transforms.Common.
 Import ListNotations.
@@ -18,43 +23,113 @@ Record rf_st := RfSt { rf_ctr : nat; rf_hoisted : list stmt }.
 Definition rf_fresh (L : nat) (s : rf_st) : ident * rf_st :=
   (gen_name L (rf_ctr s), RfSt (S (rf_ctr s)) (rf_hoisted s)).
 
+Fixpoint rf_freshes (L : nat) (n : nat) (s : rf_st) : list ident * rf_st :=
+  match n with
+  | O => ([], s)
+  | S n' => let '(x, s1) := rf_fresh L s in let '(xs, s2) := rf_freshes L n' s1 in (x :: xs, s2)
+  end.
+
 Definition rf_emit (sts : list stmt) (s : rf_st) : rf_st := RfSt (rf_ctr s) (rf_hoisted s ++ sts).
 
-Fixpoint rf_expr (L : nat) (hoist : bool) (e : expr) (s : rf_st) {struct e} : expr * rf_st :=
+(* is there a statement slot to hoist into?  HTotal: only for a reduction that cannot fail *)
+Inductive hmode := HNo | HTotal | HYes.
+
+(* _is_total of the repair *)
+Fixpoint is_total (e : expr) : bool :=
+  match e with
+  | EVar _ | EBool _ | ENum _ | ERat _ _ => true
+  | ECompare _ args | EAnd args | EOr args => forallb is_total args
+  | ENot a => is_total a
+  | EOp1 ONeg a | EOp1 OFabs a => is_total a
+  | EOp2 OAdd a b | EOp2 OSub a b | EOp2 OMul a b => is_total a && is_total b
+  | _ => false
+  end.
+
+Fixpoint pat_names (p : pat) : list ident :=
+  match p with PVar x => [x] | PWild => [] | PTuple ps => flat_map pat_names ps end.
+
+(* names bound at statement level *)
+Fixpoint stmt_bound (st : stmt) : list ident :=
+  match st with
+  | SAssign p _ => pat_names p
+  | SIndexAssign x _ _ => [x]
+  | SIf1 _ b => flat_map stmt_bound b
+  | SIf _ t f => flat_map stmt_bound t ++ flat_map stmt_bound f
+  | SWhile _ b => flat_map stmt_bound b
+  | SFor p _ b => pat_names p ++ flat_map stmt_bound b
+  | SContext x _ b => (match x with Some x => [x] | None => [] end) ++ flat_map stmt_bound b
+  | _ => []
+  end.
+
+Definition func_bound (fn : func) : list ident := f_params fn ++ flat_map stmt_bound (f_body fn).
+
+Section WithCfg.
+Variable fx : bool.
+Variable L : nat.
+Variable bound : list ident.      (* the statement-level names of the function *)
+
+Fixpoint rf_expr (h : hmode) (e : expr) (s : rf_st) {struct e} : expr * rf_st :=
   let fuse := fun (is_any : bool) (p : pat) (it elt : expr) =>
     let '(acc, s1) := rf_fresh L s in
     let '(b, s2) := rf_fresh L s1 in
-    let '(it', s3) := rf_expr L true it s2 in
-    let '(elt', s4) := rf_expr L false elt s3 in
+    let '(it', s3) := rf_expr h it s2 in
+    let '(elt', s4) := rf_expr HNo elt s3 in
+    let clobbered := if fx then filter (fun x => mem x bound) (pat_names p) else [] in
+    let '(fresh, s5) := rf_freshes L (List.length clobbered) s4 in
+    let r := combine clobbered fresh in
     let combine := if is_any then EOr [EVar acc; EVar b] else EAnd [EVar acc; EVar b] in
     (EVar acc,
      rf_emit [SAssign (PVar acc) (EBool (negb is_any));
-              SFor p it' [SAssign (PVar b) elt'; SAssign (PVar acc) combine]] s4) in
+              SFor (ren_pat r p) it' [SAssign (PVar b) (ren_expr r elt'); SAssign (PVar acc) combine]] s5) in
+  let can := fun (it elt : expr) =>
+    match h with HYes => true | HTotal => is_total it && is_total elt | HNo => false end in
+  let later := fun (args : list expr) (s : rf_st) =>
+    match args with
+    | [] => ([], s)
+    | a :: r =>
+        let '(a', s1) := rf_expr h a s in
+        let '(r', s2) := listM (rf_expr (if fx then HTotal else h)) r s1 in
+        (a' :: r', s2)
+    end in
   match e with
   | EAny a =>
-      match a, hoist with
-      | EComp [(p, it)] elt, true => fuse true p it elt
-      | _, _ => let '(a', s1) := rf_expr L hoist a s in (EAny a', s1)
+      match a with
+      | EComp [(p, it)] elt =>
+          if can it elt then fuse true p it elt
+          else let '(a', s1) := rf_expr h a s in (EAny a', s1)
+      | _ => let '(a', s1) := rf_expr h a s in (EAny a', s1)
       end
   | EAll a =>
-      match a, hoist with
-      | EComp [(p, it)] elt, true => fuse false p it elt
-      | _, _ => let '(a', s1) := rf_expr L hoist a s in (EAll a', s1)
+      match a with
+      | EComp [(p, it)] elt =>
+          if can it elt then fuse false p it elt
+          else let '(a', s1) := rf_expr h a s in (EAll a', s1)
+      | _ => let '(a', s1) := rf_expr h a s in (EAll a', s1)
       end
   | EComp gens elt =>
-      let '(gens', s1) := listM (fun g s => let '(it', s') := rf_expr L false (snd g) s in ((fst g, it'), s')) gens s in
-      let '(elt', s2) := rf_expr L false elt s1 in
+      let '(gens', s1) := listM (fun g s => let '(it', s') := rf_expr HNo (snd g) s in ((fst g, it'), s')) gens s in
+      let '(elt', s2) := rf_expr HNo elt s1 in
       (EComp gens' elt', s2)
   | EIf c a b =>
-      let '(c', s1) := rf_expr L hoist c s in
-      let '(a', s2) := rf_expr L false a s1 in
-      let '(b', s3) := rf_expr L false b s2 in
+      let '(c', s1) := rf_expr h c s in
+      let '(a', s2) := rf_expr HNo a s1 in
+      let '(b', s3) := rf_expr HNo b s2 in
       (EIf c' a' b', s3)
-  | _ => emapM (rf_expr L hoist) e s
+  | EAnd args =>
+      match h with
+      | HNo => emapM (rf_expr h) e s
+      | _ => let '(l, s1) := later args s in (EAnd l, s1)
+      end
+  | EOr args =>
+      match h with
+      | HNo => emapM (rf_expr h) e s
+      | _ => let '(l, s1) := later args s in (EOr l, s1)
+      end
+  | _ => emapM (rf_expr h) e s
   end.
 
 (* visit one expression of a statement with a statement slot *)
-Definition rf_top (L : nat) (e : expr) (s : rf_st) : expr * rf_st := rf_expr L true e s.
+Definition rf_top (e : expr) (s : rf_st) : expr * rf_st := rf_expr HYes e s.
 
 (* a nested block has its own accumulator *)
 Definition rf_sub (f : stmt -> rf_st -> list stmt * rf_st) (b : block) (s : rf_st) : block * rf_st :=
@@ -62,34 +137,38 @@ Definition rf_sub (f : stmt -> rf_st -> list stmt * rf_st) (b : block) (s : rf_s
   (b', RfSt (rf_ctr s1) (rf_hoisted s)).
 
 (* the statement visitor: returns hoisted ++ [statement]; the caller's accumulator is empty on entry *)
-Fixpoint rf_stmt (L : nat) (st : stmt) (s : rf_st) {struct st} : list stmt * rf_st :=
+Fixpoint rf_stmt (st : stmt) (s : rf_st) {struct st} : list stmt * rf_st :=
   let done := fun (st' : stmt) (s' : rf_st) => (rf_hoisted s' ++ [st'], RfSt (rf_ctr s') []) in
   match st with
-  | SAssign p e => let '(e', s1) := rf_top L e s in done (SAssign p e') s1
+  | SAssign p e => let '(e', s1) := rf_top e s in done (SAssign p e') s1
   | SIndexAssign x idx e =>
-      let '(idx', s1) := listM (rf_top L) idx s in
-      let '(e', s2) := rf_top L e s1 in done (SIndexAssign x idx' e') s2
+      let '(idx', s1) := listM rf_top idx s in
+      let '(e', s2) := rf_top e s1 in done (SIndexAssign x idx' e') s2
   | SIf1 c b =>
-      let '(c', s1) := rf_top L c s in
-      let '(b', s2) := rf_sub (rf_stmt L) b s1 in done (SIf1 c' b') s2
+      let '(c', s1) := rf_top c s in
+      let '(b', s2) := rf_sub rf_stmt b s1 in done (SIf1 c' b') s2
   | SIf c t f =>
-      let '(c', s1) := rf_top L c s in
-      let '(t', s2) := rf_sub (rf_stmt L) t s1 in
-      let '(f', s3) := rf_sub (rf_stmt L) f s2 in done (SIf c' t' f') s3
+      let '(c', s1) := rf_top c s in
+      let '(t', s2) := rf_sub rf_stmt t s1 in
+      let '(f', s3) := rf_sub rf_stmt f s2 in done (SIf c' t' f') s3
   | SWhile c b =>
-      let '(c', s1) := rf_top L c s in
-      let '(b', s2) := rf_sub (rf_stmt L) b s1 in done (SWhile c' b') s2
+      let '(c', s1) := rf_expr (if fx then HNo else HYes) c s in
+      let '(b', s2) := rf_sub rf_stmt b s1 in done (SWhile c' b') s2
   | SFor p it b =>
-      let '(it', s1) := rf_top L it s in
-      let '(b', s2) := rf_sub (rf_stmt L) b s1 in done (SFor p it' b') s2
+      let '(it', s1) := rf_top it s in
+      let '(b', s2) := rf_sub rf_stmt b s1 in done (SFor p it' b') s2
   | SContext x e b =>
-      let '(e', s1) := rf_top L e s in
-      let '(b', s2) := rf_sub (rf_stmt L) b s1 in done (SContext x e' b') s2
-  | SAssert e => let '(e', s1) := rf_top L e s in done (SAssert e') s1
-  | SEffect e => let '(e', s1) := rf_top L e s in done (SEffect e') s1
-  | SReturn e => let '(e', s1) := rf_top L e s in done (SReturn e') s1
+      let '(e', s1) := rf_top e s in
+      let '(b', s2) := rf_sub rf_stmt b s1 in done (SContext x e' b') s2
+  | SAssert e => let '(e', s1) := rf_top e s in done (SAssert e') s1
+  | SEffect e => let '(e', s1) := rf_top e s in done (SEffect e') s1
+  | SReturn e => let '(e', s1) := rf_top e s in done (SReturn e') s1
   | SPass => done SPass s
   end.
+End WithCfg.
 
-Definition reduce_fusion (fn : func) : func :=
-  set_body fn (fst (bmapM (rf_stmt (max_len (func_names fn))) (f_body fn) (RfSt O []))).
+Definition reduce_fusion_gen (fx : bool) (fn : func) : func :=
+  set_body fn (fst (bmapM (rf_stmt fx (max_len (func_names fn)) (func_bound fn)) (f_body fn) (RfSt O []))).
+
+Definition reduce_fusion := reduce_fusion_gen false.          (* as coded *)
+Definition reduce_fusion_fixed := reduce_fusion_gen true.     (* with the proposed repair *)
